@@ -36,10 +36,12 @@ def o_c05(cimp, ctx):
         return probs
     # converge to the from-scratch result
     files = cimp["files"]
-    pinned = {p for t in tasks if t["persist"] for p in t["prods"]}      # persist trades the guarantee away
+    rep = dict(cimp["reports"])
+    # persist trades the guarantee away; a task that was skipped (marker, or below a skipped task) is not built
+    pinned = {p for t in tasks if t["persist"] or rep.get(t["id"]) in (O["SKIP"], None) for p in t["prods"]}
     ideal = EC.ideal_contents(tasks, files, ctx["raw"]["mods"], pinned)
     for t in tasks:
-        if t["persist"]:
+        if t["persist"] or rep.get(t["id"]) in (O["SKIP"], None):
             continue
         for p in t["prods"]:
             if ideal.get(p) is not None and files.get(p) != ideal[p]:
